@@ -218,13 +218,25 @@ func (k *c04) judgeTree(c *core.Ctx, i int, dir string, j *gen.Journal, r *rand.
 	core.WriteFiles(tdir, files)
 	defer os.RemoveAll(tdir)
 	for n := 0; n < 4; n++ {
-		env := []string{"GOMAXPROCS=" + []string{"2", "4", "16", "16"}[n], fmt.Sprintf("KNUT_VERIF_SCHED=%d:300:200", r.Intn(1<<30))}
+		env := []string{"GOMAXPROCS=" + []string{"2", "1", "16", "4"}[n], fmt.Sprintf("KNUT_VERIF_SCHED=%d:300:200", r.Intn(1<<30))}
 		res := knut(c, tdir, env, "check", "main.knut")
 		c.Eval(1)
 		c.Observe("family", "valid-tree")
 		if res.Class == "timeout" {
-			c.Inconclusive(i, "check of an include tree timed out")
-			continue
+			// no verdict is not the verdict the rules give: a hang counts when it reproduces
+			hangs := 1
+			for m := 0; m < 2; m++ {
+				if knut(c, tdir, env, "check", "main.knut").Class == "timeout" {
+					hangs++
+				}
+			}
+			if hangs < 3 {
+				c.Inconclusive(i, fmt.Sprintf("check of an include tree timed out %d of 3 times", hangs))
+				continue
+			}
+			c.Violation(core.Witness{Case: i, Key: "tree-no-verdict", Why: fmt.Sprintf("the journal is well-formed=%v by the lifecycle rules, but spread over %d included files check does not terminate (3 of 3 attempts, %s)", v.OK, len(files), strings.Join(env, " ")),
+				Files: files, Cmd: knutCmd(c, env, "check", "main.knut")})
+			return false
 		}
 		if (res.Class == "ok") != v.OK {
 			c.Violation(core.Witness{Case: i, Key: "tree-verdict-differs", Why: fmt.Sprintf("the journal is well-formed=%v by the lifecycle rules, but spread over %d included files check ends with class %s (%s): %s", v.OK, len(files), res.Class, strings.Join(env, " "), core.Trunc(string(res.Stderr), 300)),
